@@ -11,6 +11,12 @@ TB = ("Coq 8.16.1 kernel (+vm_compute); no axioms of our own (Print Assumptions 
       "tied by regeneration/correspondence on the cases run")
 
 CHECKS = {
+    "C06": dict(
+        engine="E5 source",
+        technique="Coq model typechecker for the core AST, proved sound AND complete w.r.t. a declarative typing judgment; every single-fault mutation operator of the rule catalogue proved rejected at any nesting depth; real compiler vs model on generated well-typed programs and all their mutants (accept/reject and diagnostic line), text-level mutants for unknown names/attributes/exceptions and match exhaustiveness",
+        text="proof: typecheck_sound / typecheck_complete, mutant_rejected (for every well-typed P and every single-fault mutant at any depth: operands, branches, loop bodies, arguments, nested functions, lambdas, catch clauses), assign_to_const_rejected, match_omitting_enumerator_rejected, unknown_exception_rejected about coq/Src/Typecheck.v; tie: ~4x10^4 generated mutants per quick run through the tree's compiler (each must be rejected with a diagnostic on the mutated node's line; each base program accepted), negative samples as corpus",
+        ref="DESIGN.md §5 C06",
+        note=TB + "; the model covers the core AST of Src/Syntax.v; rules outside it (slices, ranges, modules, enums beyond match) are exercised only by text-level mutants and by C01's ill-typed acceptance matrix"),
     "C03": dict(
         engine="E4 verifier / E5 source",
         technique="Coq proofs: exception-table binary search spec and its link to the verifier's lookup; fault delivery on the shape machine for all paths of verified code (fault lands in own handler chain, chain finite and in source order, CLEAR_STACK restores the frame with parameters intact, RETHROW unwinds one frame, UNHANDLED only at top level); clause selection theorems on the reference evaluator; fault-program family with closed-form oracle + lock-step on real traces",
